@@ -265,8 +265,13 @@ def c02(rep, tier):
                 used_exc.add((hit[0]['function'], hit[0]['construct']))
                 Cc.ok(inst, 'accepted (spec/exceptions.json, re-verified): %s [%s]' % (hit[0]['reason'], hit[1]), where)
             elif hit is None:
-                Cc.violation(inst, '%s may be empty here: undefined behaviour' % show(seq), where,
-                             witness={'sequence': show(seq), 'needs': 'dominating push, !empty() guard, enclosing iteration, or a reasoned exception'})
+                wit = empty_witness(M, f, g, ev, seq)
+                if wit:
+                    Cc.violation(inst, '%s may be empty here: undefined behaviour' % show(seq), where,
+                                 witness={'sequence': show(seq), 'path': wit})
+                else:
+                    Cc.unknown(inst, 'cannot show %s non-empty here and cannot exhibit a path on which it is empty (no dominating push, guard, '
+                                     'enclosing iteration or reasoned exception)' % show(seq), where)
 
     # ------------------------------------------------------------------ d: resources
     D = rep.rule('C02.d', 'every allocation belongs to a recognised ownership scheme and is released on all paths', floor=8)
@@ -520,6 +525,35 @@ def nonempty_reason(M, lib, f, g, ev, seq, k_needed):
                       show(strip_casts(x.e['obj'])) == sname and g.can_follow(pev, x) and g.can_follow(x, ev) and x is not ev]
                 if not rm:
                     return 'dominated by %s' % show(c)[:60]
+    return None
+
+
+def empty_witness(M, f, g, ev, seq):
+    """A concrete reason to believe the sequence can be empty at ev: it is a local of this function that starts
+    empty and some path from its declaration reaches ev without passing any push onto it."""
+    s0 = strip_casts(seq)
+    if s0.get('k') != 'ref' or s0.get('dk') != 'var':
+        return None
+    ds = M.defs(f).get(s0['d'], [])
+    if len(ds) != 1 or ds[0][0] != 'init':
+        return None
+    init = strip_casts(ds[0][1]) if ds[0][1] is not None else None
+    starts_empty = init is None or (init.get('k') in ('construct', 'init') and not (init.get('args') or init.get('elems') or init.get('fields')))
+    if not starts_empty:
+        return None
+    pushes = [x for x in g.calls() if (x.e.get('callee') or '').split('::')[-1] in ('push_back', 'emplace_back', 'insert', 'resize', 'assign') and
+              x.e.get('obj') is not None and strip_casts(x.e['obj']).get('d') == s0['d']]
+    # is there a path entry -> ev avoiding every push?  (reachability in the CFG with the push nodes removed)
+    blocked = set(x.node.id for x in pushes if x.node is not ev.node)
+    seen, st = set(), [g.entry]
+    while st:
+        n = st.pop()
+        if n.id in seen or n.id in blocked:
+            continue
+        seen.add(n.id)
+        st.extend(n.succ)
+    if ev.node.id in seen:
+        return 'declared empty in %s; a path reaches this use without passing any of the %d push(es) onto it' % (f['q'], len(pushes))
     return None
 
 
